@@ -379,6 +379,9 @@ class Consumer(object):
                 # for): there is nothing left to commit or to stop.
                 if isinstance(result, Failure):
                     return _handle_shutdown_commit_failure(result)
+                if self.consumer_group and self._last_processed_offset != self._last_committed_offset:
+                    # ...but the commit shutdown() promises did not happen
+                    return _handle_shutdown_commit_failure(Failure(CancelledError()))
                 return _handle_shutdown_commit_success(None)
             if not self.consumer_group:  # No consumer group, no committing
                 return _handle_shutdown_commit_success(None)
